@@ -79,6 +79,9 @@ def step (j : Json) : Option String := do
     let env := layout p.vars
     let trees := p.stmts.map fun s => match s with
       | .set _ e => match elabE env e with | .ok v => showVal v | .error _ => "?"
-    pure ("ok " ++ joinSp (code.map showInsn) ++ " | " ++ " ; ".intercalate trees)
+    let cls := p.stmts.map fun s =>
+      let c := (stmtClasses env s).toArray.qsort (· < ·) |>.toList
+      if c.isEmpty then "-" else ",".intercalate c
+    pure ("ok " ++ joinSp (code.map showInsn) ++ " | " ++ " ; ".intercalate trees ++ " | " ++ " ; ".intercalate cls)
 
 def main : IO Unit := driverMain step
